@@ -52,7 +52,7 @@ func fontCases(n int) []*FontCase {
 	corpus := fonts.Corpus(true)
 	upms := []int{1000, 1000, 2048, 1000, 64, 16384, 1000, 2000}
 	wmodes := []string{"rand", "rand", "mono", "monozero", "tail", "rand", "wide", "zero", "tail", "nearmono",
-		"drift", "driftdown", "driftperm", "jitter"}
+		"drift", "driftdown", "driftperm", "jitter", "frac", "frachi", "monofrac"}
 	shifts := [][2]int{{0, 0}, {0, 0}, {900, 1100}, {-2500, -1900}, {0, 1500}, {1300, 0}}
 	angles := [][2]int{{0, 0}, {0, 0}, {65524, 0}, {65523, 32768}, {9, 1}}
 	for i := 0; len(res) < n; i++ {
@@ -93,6 +93,9 @@ func fontCases(n int) []*FontCase {
 		}{{"cff", "drift", 10, none, false}, {"cid", "driftperm", 9, none, false}, {"cff", "driftperm", 6, none, false},
 			{"cid", "driftdown", 12, none, true}, {"cff", "jitter", 8, none, false}, {"ttf", "drift", 9, none, false},
 			{"cff", "nearmono", 7, none, false}, {"cff", "monozero", 9, none, false},
+			// fractional advance widths on both sides of one half
+			{"cff", "frac", 11, none, false}, {"cid", "frac", 9, none, true}, {"cff", "frachi", 4, none, false},
+			{"cid", "frachi", 7, none, false}, {"cff", "monofrac", 5, none, false}, {"cff", "frachi", 23, none, false},
 			// one font of every outline kind for every class of font matrix
 			{"ttf", "rand", 8, fmTranslate, false}, {"cff", "rand", 8, fmTranslate, false}, {"cid", "rand", 8, fmTranslate, true},
 			{"ttf", "rand", 7, fmShear, false}, {"cff", "mono", 7, fmShear, false}, {"cid", "rand", 7, fmShear, false},
@@ -224,6 +227,12 @@ func (fc *FontCase) build() (f *sfnt.Font, wq []int, codes []int) {
 			set(i, 603-0.4*float64(min(i, 7)))
 		case "driftperm": // the same multiset of widths in another glyph order
 			set(i, 600+0.4*float64((i*5+3)%8))
+		case "frac": // fractions on both sides of one half
+			set(i, float64(300+rng.Intn(500))+[]float64{0, 0.25, 0.5, 0.75, 0.05, 0.95}[rng.Intn(6)])
+		case "frachi": // every width has a fraction of one half or more
+			set(i, float64(300+rng.Intn(500))+[]float64{0.5, 0.75, 0.6, 0.95}[rng.Intn(4)])
+		case "monofrac":
+			set(i, 999.5)
 		case "jitter": // all within half a unit: either answer of the fixed-pitch test is accepted
 			set(i, 600+0.05*float64(rng.Intn(9)))
 		case "nearmono":
@@ -351,6 +360,11 @@ func rationalMatrix(M matrix.Matrix) (N [6]int, D int, ok bool) {
 		}
 	}
 	return [6]int{}, 1, false
+}
+
+// declared collects the tables with derived fields as the written file declares them.
+func declared(e ev) ev {
+	return ev{"hhea": e["hhea"], "hm": e["hm"], "head": e["head"], "os2": e["os2"], "maxp": e["maxp"]}
 }
 
 func milli(r [4]float64) [4]int {
@@ -481,8 +495,14 @@ func describe(c *Case, stage string, f *sfnt.Font, wq, codes []int) (e ev, file 
 	e["os2"], e["post"], e["maxp"] = words("OS/2", 48), words("post", 16), words("maxp", 0)
 	fileBox := [][4]int{}
 	fileEmpty := []bool{}
+	locaN := -1 // number of glyphs the loca table of the file has room for
 	if fk == "ttf" && len(tabs["head"]) >= 54 {
 		loca := mx.S16(mx.Words(tabs["head"])[25])
+		if loca == 0 {
+			locaN = len(tabs["loca"])/2 - 1
+		} else {
+			locaN = len(tabs["loca"])/4 - 1
+		}
 		ents, werr := mx.WalkGlyf(tabs["glyf"], tabs["loca"], loca, n)
 		if werr == nil {
 			for _, en := range ents {
@@ -491,7 +511,9 @@ func describe(c *Case, stage string, f *sfnt.Font, wq, codes []int) (e ev, file 
 			}
 		}
 	}
-	e["fileBox"], e["fileEmpty"] = fileBox, fileEmpty
+	e["fileBox"], e["fileEmpty"], e["locaN"] = fileBox, fileEmpty, locaN
+	// what this file declares; the re-read stage carries the declaration of the first file ("prev")
+	e["prev"] = declared(e)
 
 	// second observation stream: golang.org/x/image/font/sfnt on the written file
 	xadv := []int{}
@@ -535,11 +557,13 @@ func describe(c *Case, stage string, f *sfnt.Font, wq, codes []int) (e ev, file 
 func doFont(c *Case, out *vio.Out) {
 	var file []byte
 	var codes []int
+	var first ev
 	guard(c, out, func() {
 		f, wq, cs := c.Font.build()
 		codes = cs
 		var e ev
 		e, file = describe(c, "built", f, wq, codes)
+		first = declared(e)
 		out.Emit(e)
 	})
 	if file == nil {
@@ -573,6 +597,7 @@ func doFont(c *Case, out *vio.Out) {
 			}
 		}
 		e, _ := describe(c, "reread", f1, wq, codes)
+		e["prev"] = first
 		out.Emit(e)
 	})
 }
